@@ -14,6 +14,7 @@ import (
 	"go/ast"
 	"go/format"
 	"go/parser"
+	"go/printer"
 	"go/token"
 	"go/types"
 	"io"
@@ -32,6 +33,7 @@ var (
 	exclTypes  = flag.String("exclude-types", "", "type names whose declarations are left untouched")
 	skipDirs   = flag.String("skip-dirs", "", "relative directories copied verbatim")
 	report     = flag.String("report", "", "write a JSON-ish report of rewrites here")
+	stmtPoints = flag.String("stmt-points", "", "comma separated file globs: a scheduling point (simrt.Point) is inserted before every statement of these files (statement-level instead of lock-level interleaving)")
 )
 
 func fatal(format string, a ...any) {
@@ -262,6 +264,9 @@ func (g *gen) rewriteFile(path, rel string) ([]byte, error) {
 	}
 	r := &rewriter{g: g, rel: rel, info: pi.info, mapRng: map[*ast.RangeStmt]bool{}}
 	r.walk(reflect.ValueOf(f).Elem())
+	if *stmtPoints != "" && matchAny(strings.Split(*stmtPoints, ","), rel) {
+		r.insertPoints(f)
+	}
 	if !r.changed {
 		return os.ReadFile(path)
 	}
@@ -315,6 +320,9 @@ func (g *gen) rewriteFile(path, rel string) ([]byte, error) {
 	buf.WriteString("//go:build verif\n\n// Code generated by simgen from " + rel + "; DO NOT EDIT.\n\n")
 	var body bytes.Buffer
 	if err := format.Node(&body, token.NewFileSet(), f); err != nil {
+		var raw bytes.Buffer
+		printer.Fprint(&raw, token.NewFileSet(), f)
+		os.WriteFile("/tmp/simgen-failed.go", raw.Bytes(), 0o644)
 		return nil, err
 	}
 	buf.Write(body.Bytes())
@@ -610,4 +618,50 @@ func (r *rewriter) selectStmt(s *ast.SelectStmt) ast.Stmt {
 	}
 	stmts = append(stmts, sw)
 	return &ast.BlockStmt{List: stmts}
+}
+
+// insertPoints puts simrt.Point("file:line") before every statement of every function body,
+// case clause and nested block of the file.
+func (r *rewriter) insertPoints(f *ast.File) {
+	var withPoints func(list []ast.Stmt) []ast.Stmt
+	withPoints = func(list []ast.Stmt) []ast.Stmt {
+		out := make([]ast.Stmt, 0, 2*len(list))
+		for _, st := range list {
+			_, isCase := st.(*ast.CaseClause)
+			_, isComm := st.(*ast.CommClause)
+			if _, isDecl := st.(*ast.DeclStmt); !isDecl && !isCase && !isComm && st.Pos().IsValid() {
+				if _, isEmpty := st.(*ast.EmptyStmt); !isEmpty {
+					call := simrtCall("Point", r.site(st))
+					if se, ok := call.Fun.(*ast.SelectorExpr); ok {
+						if id, ok := se.X.(*ast.Ident); ok {
+							id.NamePos = st.Pos()
+						}
+						se.Sel.NamePos = st.Pos()
+					}
+					call.Lparen, call.Rparen = st.Pos(), st.Pos()
+					if bl, ok := call.Args[0].(*ast.BasicLit); ok {
+						bl.ValuePos = st.Pos()
+					}
+					out = append(out, &ast.ExprStmt{X: call})
+					r.count("stmt_point")
+				}
+			}
+			out = append(out, st)
+		}
+		return out
+	}
+	ast.Inspect(f, func(n ast.Node) bool {
+		switch x := n.(type) {
+		case *ast.BlockStmt:
+			if x.Lbrace.IsValid() && x.Rbrace.IsValid() && r.g.fset.Position(x.Lbrace).Line == r.g.fset.Position(x.Rbrace).Line {
+				return true // a one-line body: the printer would keep it on one line
+			}
+			x.List = withPoints(x.List)
+		case *ast.CaseClause:
+			x.Body = withPoints(x.Body)
+		case *ast.CommClause:
+			x.Body = withPoints(x.Body)
+		}
+		return true
+	})
 }
